@@ -62,3 +62,41 @@ impl<T> IsNullShim for *mut T {
     #[verifier::external_body]
     fn is_null_shim(&self) -> (r: bool) { self.is_null() }
 }
+use std::collections::HashMap;
+/// errno reported to C: |errno| of the failure, 0 if it has none
+pub open spec fn errno_abs(e: Error) -> u64 {
+    match e.kind_spec().errno_spec() {
+        Some(x) => (if x < 0 { -(x as int) } else { x as int }) as u64,
+        None => 0u64,
+    }
+}
+pub uninterp spec fn stored_error(id: i32, e: Error) -> bool;
+pub assume_specification[i32::unsigned_abs](x: i32) -> (r: u32)
+    ensures r as int == (if x < 0 { -(x as int) } else { x as int });
+pub mod rand {
+    use vstd::prelude::*;
+    #[verifier::external_body]
+    pub struct ThreadRng { _p: () }
+    #[verifier::external_body]
+    pub fn thread_rng() -> ThreadRng { unimplemented!() }
+    impl ThreadRng {
+        /// A7: `gen_range(a..=b)` returns a value in [a, b]
+        #[verifier::external_body]
+        pub fn gen_range_inclusive(&mut self, lo: i32, hi: i32) -> (r: i32)
+            requires lo <= hi
+            ensures lo <= r <= hi
+        { unimplemented!() }
+    }
+}
+/// R5: the description text (Display of the error chain) is dropped; it cannot affect errno or ids.
+/// NOTE (unverified): the real code panics (`expect`) if the text contains a NUL byte.
+#[verifier::external_body]
+pub fn describe_dropped(err: &Error) -> CString { unimplemented!() }
+impl CString {
+    #[verifier::external_body]
+    pub fn into_raw(self) -> (r: *mut c_char) { unimplemented!() }
+}
+pub trait Leakable: Sized {
+    #[verifier::external_body]
+    fn leak(self) -> (r: &'static mut Self) ensures *r == self { unimplemented!() }
+}
